@@ -1,6 +1,7 @@
 // C12 - positionals: `--`, greedy mode, the accepted count and negative indices.
 // Engine B: accepted in {0,1,2,3,unlimited} x greedy x every vector up to the bound over a 14-token alphabet
 // that mixes value tokens, `--`, malformed dash tokens, declared and undeclared option spellings.
+#include <cstdint>
 #include "parser_check.hpp"
 
 using namespace pc;
@@ -94,6 +95,29 @@ int main(int argc, char** argv)
                     ctx.each([&] { return chk.describe(D, av, {}); },
                              [&](mc::Report& rep) { chk.run_second(D, f, {}, av, {}, rep, idx); });
                 });
+        // the other entry point: every vector of <= 3 tokens through parse(std::vector<user_input>) (the checking constructor
+        // accepts every value token - the empty string and `=x` included - and rejects malformed dash tokens)
+        for (auto& D : decls)
+            for_all_vectors(alpha, a.asan() ? 2 : 3, ctx, [&](const std::vector<std::string>& av) {
+                long idx = ctx.next;
+                ctx.each([&] { return chk.describe_vector_entry(D, av, {}); }, [&](mc::Report& rep) { chk.run_vector_entry(D, av, {}, rep, idx); });
+            });
+        // a huge but finite accepted count ("practically unlimited") behaves like any other count that is not exceeded
+        for (auto& D0 : decls)
+        {
+            if (D0.accepted != UNLIMITED)
+                continue;
+            for (size_t big : { size_t(1000000), size_t(1) << 30, size_t(2147483647), size_t(4294967295u), size_t(1) << 40, static_cast<size_t>(PTRDIFF_MAX) })
+            {
+                Decl D = D0;
+                D.accepted = big;
+                for (auto av : { std::vector<std::string>{}, std::vector<std::string>{ "p", "q", "r" }, std::vector<std::string>{ "--", "-", "p" } })
+                {
+                    long idx = ctx.next;
+                    ctx.each([&] { return chk.describe(D, av, {}); }, [&](mc::Report& rep) { chk.run_case(D, av, {}, rep, idx); });
+                }
+            }
+        }
         // sizes: many positionals (beyond a narrow counter / index type), exactly at and one above a large accepted count
         for (auto& D0 : decls)
         {
